@@ -854,6 +854,12 @@ class FuelHandler:
             if a not in self.moved:
                 self.moved.append(a)
 
+        # A fresh assembly still carries its placeholder number. Give it its final name before
+        # stationary blocks are exchanged: the block it receives keeps the name it is registered
+        # under in the core, and the block it hands over to the outgoing assembly has a proper name.
+        if incoming.p.assemNum < 0:
+            incoming.renumber(self.r.incrementAssemNum())
+
         self._transferStationaryBlocks(incoming, outgoing)
 
         # replace the goingOut guy.
